@@ -271,6 +271,8 @@ def make_body(kind, cipher, rnd):
         while len(s) < 10000:
             s += rnd.choice(words) + ' '
         return s
+    if kind == 'zeros2M':          # highly compressible and larger than a megabyte (a sparse image, a log of one repeated line)
+        return bytes(2 << 20)
     if kind == 'rand1M':
         return rnd.randbytes(1 << 20)
     raise ValueError(kind)
@@ -564,6 +566,10 @@ def enumerate_cases(tier, seed):
                 for h in hs:
                     add(dir='fwd', cipher=c, body=b, comp=z, recips=[['pw', n % len(PASSPHRASES), h]], meta=(n + 2) % 4,
                         armored=(n % 6 == 0), inmem=(n % 3 == 0))
+    # a body that shrinks by more than 1000:1, through every compression algorithm, to a passphrase and to a key
+    for cn in COMP_NAMES:
+        if cn != 'Uncompressed':
+            add(dir='fwd', cipher=ciphers[0], body='zeros2M', comp=cn, recips=[['pw', 0, S2K_HASHES[0]]] if cn != 'ZIP' else [['key', 'x25519']], meta=0, armored=False)
     # ECDH keys whose KDF parameters are not this library's per-curve defaults
     n = 0
     for ci, c in enumerate(ciphers):
@@ -640,7 +646,7 @@ def nontrivial_key(case):
 
 def cost(case):
     c = sum(1.0 if r[0] == 'pw' and (case['dir'] == 'fwd' or r[4] >= 0xc0) else 0.2 if r[1] == 'rsa' else 0.02 for r in case['recips'])
-    return c + (1.0 if case['body'] == 'rand1M' else 0) + 0.1 * len(case.get('signers', ()))
+    return c + (1.0 if case['body'] in ('rand1M', 'zeros2M') else 0) + 0.1 * len(case.get('signers', ()))
 
 
 def component(tier='quick', seed=0, known=()):
